@@ -9,7 +9,7 @@ namespace Iggy.Log
 def mkMsg (base now k : Nat) (m : InMsg) : Msg :=
   { off := base + k, id := m.id, ts := now, size := m.size, tag := m.tag }
 
-theorem number_acc (base now : Nat) (l : List InMsg) (d : Option (List Nat)) (k : Nat) (acc : List Msg) :
+theorem number_acc_split (base now : Nat) (l : List InMsg) (d : Option (List Nat)) (k : Nat) (acc : List Msg) :
     number d base now l k acc =
       ((number d base now l k []).1, acc.reverse ++ (number d base now l k []).2) := by
   induction l generalizing d k acc with
@@ -34,7 +34,7 @@ theorem number_cons_none (base now : Nat) (m : InMsg) (l : List InMsg) (k : Nat)
     number none base now (m :: l) k [] =
       ((number none base now l (k + 1) []).1, mkMsg base now k m :: (number none base now l (k + 1) []).2) := by
   simp only [number]
-  rw [number_acc]; rfl
+  rw [number_acc_split]; rfl
 
 theorem number_cons_some_dup (base now : Nat) (m : InMsg) (l : List InMsg) (k : Nat) (ids : List Nat)
     (h : ids.contains m.id = true) :
@@ -47,7 +47,7 @@ theorem number_cons_some_new (base now : Nat) (m : InMsg) (l : List InMsg) (k : 
       ((number (some (m.id :: ids)) base now l (k + 1) []).1,
         mkMsg base now k m :: (number (some (m.id :: ids)) base now l (k + 1) []).2) := by
   simp only [number, h, Bool.false_eq_true, if_false]
-  rw [number_acc]; rfl
+  rw [number_acc_split]; rfl
 
 /-- what `number` guarantees about its result `(d', r)` -/
 structure NumberSpec (d : Option (List Nat)) (base now : Nat) (l : List InMsg) (k : Nat)
